@@ -3,6 +3,7 @@
 package world
 
 import (
+	"io"
 	"context"
 	"encoding/json"
 	"fmt"
@@ -62,6 +63,8 @@ type Options struct {
 	RefreshRetries  int
 	CleanRetention  time.Duration
 	ZeroLockBackoff bool
+	// Start, when set, replaces Epoch as the start of the fake clock (an early date makes every nanosecond an exact float64 score)
+	Start time.Time
 }
 
 func DefaultOptions() Options {
@@ -126,8 +129,12 @@ func New(opts Options) *World {
 	if err := mr.Start(); err != nil {
 		panic(err)
 	}
-	clock := clockwork.NewFakeClockAt(Epoch)
-	mr.SetTime(Epoch)
+	start := Epoch
+	if !opts.Start.IsZero() {
+		start = opts.Start
+	}
+	clock := clockwork.NewFakeClockAt(start)
+	mr.SetTime(start)
 	return &World{MR: mr, Clock: clock, Opts: opts}
 }
 
@@ -166,7 +173,9 @@ func (w *World) NewProcOpts(po ProcOpts) *Proc {
 	for _, h := range hooks {
 		client.AddHook(h)
 	}
-	logger := zerolog.Nop()
+	// every log statement is evaluated (its arguments are built and rendered), the output is thrown away: a logging call
+	// that panics or blocks is part of the behaviour under test
+	logger := zerolog.New(io.Discard).Level(zerolog.TraceLevel)
 	p := &Proc{W: w, Client: client, Logger: &logger}
 	p.Metrics = metrics.New()
 	p.Validate = validation.MustNew()
